@@ -347,7 +347,7 @@ def point_descs(draw, dom, orders=('C', 'C', 'F', 'strided'), nvals=24):
 
 FAMILY_WEIGHTS = collections.OrderedDict([
     ('default', 6), ('ufuncfunc', 2), ('derivative', 3), ('tensor', 5), ('pspace', 5),
-    ('diff', 5), ('discr', 4), ('ufunc', 6), ('expr', 6), ('trafo', 4),
+    ('diff', 5), ('discr', 4), ('ufunc', 6), ('expr', 8), ('trafo', 4),
     ('deform', 1), ('tomo', 1), ('functional', 5), ('gradient', 4),
     ('prox', 6), ('funcprox', 5), ('solverblock', 2),
 ])
@@ -478,7 +478,8 @@ def region(op, desc):
     parts = [desc['op']['entry'], 'ran=' + _space_tag(op.range)]
     n = flat.rdim(op.range) if not isinstance(op.range, Field) else 1
     parts.append('small' if n < 100 else 'medium')
-    for k in ('impl', 'halfcomplex', 'parity', 'matshape'):
+    for k in ('impl', 'halfcomplex', 'parity', 'matshape', 'operand',
+              'kind'):
         if k in opts:
             parts.append('{}={}'.format(k, opts[k]))
     if 'naxes' in opts:
@@ -2774,3 +2775,134 @@ SITE_FAMILIES = {'proximal': ('prox', 'funcprox'),
                  'elem.divide': ('solverblock',),
                  'elem.ufunc': ('solverblock',),
                  'elem.lincomb': ('solverblock',)}
+
+
+# --------------------------------------------------------------------------
+# operators whose out-of-place result shares memory with the input
+
+def _all_leaves(x, spc):
+    if isinstance(spc, Field):
+        return []
+    return [np.asarray(a) for a, _ in flat.leaf_arrays(x, spc)]
+
+
+def result_shares_memory(op, x):
+    """True if ``op(x)`` is ``x`` itself or a view of (part of) ``x``."""
+    if isinstance(op.domain, Field) or isinstance(op.range, Field):
+        return False
+    r = op(x)
+    if r is x:
+        return True
+    xs = _all_leaves(x, op.domain)
+    return any(np.shares_memory(a, b)
+               for a in _all_leaves(r, op.range) for b in xs)
+
+
+_VIEW_POOL = []
+
+
+def get_view_pool():
+    """Names of the catalogue entries for which some drawn configuration
+    returns a view of its argument; determined once per process by probing
+    every C03 entry (2 seeded draws each, 8 for the data-movement families)
+    with ``np.shares_memory``."""
+    if _VIEW_POOL:
+        return _VIEW_POOL[0]
+
+    @st.composite
+    def probe_case(draw, name):
+        od = draw(entry_descs(name))
+        return {'op': od, 'x': draw(point_descs(od['dom'], orders=('C',)))}
+
+    names = [n for n, e in ENTRIES.items()
+             if e.c03 and e.family not in ('expr',) and
+             not n.startswith('expr.view')]
+    pool = []
+    with np.errstate(all='ignore'):
+        for name in names:
+            # data-movement families get more draws (views depend on the
+            # drawn space kind / variant)
+            many = ENTRIES[name].family in ('default', 'tensor', 'pspace',
+                                            'discr')
+            for d in sweep(lambda n: probe_case(n), [name],
+                           per_entry=8 if many else 2, seed=777):
+                try:
+                    op, _ = build_op(d['op'])
+                    if result_shares_memory(op, point(op.domain, d['x'])):
+                        pool.append(name)
+                        break
+                except Exception:  # noqa
+                    continue
+    _VIEW_POOL.append(pool)
+    return pool
+
+
+VIEW_EXPR_KINDS = ['sum-left', 'sum-right', 'sum-self', 'vecsum', 'vecdiff',
+                   'lscal', 'rscal', 'lvec', 'rvec', 'pwprod', 'neg', 'div',
+                   'comp-outer', 'comp-inner', 'comp-inner-vecsum',
+                   'fcomp', 'fsum', 'fscalarsum', 'flscal', 'frscal', 'flvm']
+
+
+@entry('expr.viewoperand', 'expr', weight=20,
+       classes=['OperatorSum', 'OperatorVectorSum', 'OperatorComp',
+                'OperatorLeftScalarMult', 'OperatorRightScalarMult',
+                'OperatorLeftVectorMult', 'OperatorRightVectorMult',
+                'OperatorPointwiseProduct', 'FunctionalComp',
+                'FunctionalSum', 'FunctionalScalarSum',
+                'FunctionalLeftScalarMult', 'FunctionalRightScalarMult',
+                'FunctionalLeftVectorMult'])
+def _expr_view(o):
+    """Expression classes around an operand whose out-of-place result is a
+    view of (or identical to) its argument: an expression class that
+    accumulates into what an operand returned overwrites the caller's x."""
+    name = o.pick('operand', get_view_pool() if o.draw is not None else ())
+    c = o.child('v')
+    vthunk = ENTRIES[name].func(c)
+    k = o.pick('kind', VIEW_EXPR_KINDS)
+    s = o.scalar('s', nonzero=True)
+    seed = o.seed()
+    direct = o.flag('direct')
+    o.dom = c.dom
+    o.opts['variant'] = k
+
+    def mk():
+        V = vthunk()
+        dom, ran = V.domain, V.range
+        if isinstance(dom, Field) or isinstance(ran, Field):
+            raise NotImplementedError('operand without vector range')
+        v_ran, v_dom = vec(ran, seed), vec(dom, seed + 1)
+        P = odl.ConstantOperator(vec(ran, seed + 2), domain=dom, range=ran)
+
+        def f():
+            # (a real-valued functional: FunctionalComp takes its range from
+            # the field of V.domain, which may differ from that of V.range)
+            return S.L2Norm(ran) * V
+
+        op = {
+            'sum-left': lambda: odl.OperatorSum(V, P) if direct else V + P,
+            'sum-right': lambda: odl.OperatorSum(P, V) if direct else P + V,
+            'sum-self': lambda: V + V,
+            'vecsum': lambda: odl.OperatorVectorSum(V, v_ran) if direct
+            else V + v_ran,
+            'vecdiff': lambda: V - v_ran,
+            'lscal': lambda: s * V,
+            'rscal': lambda: V * s,
+            'lvec': lambda: v_ran * V,
+            'rvec': lambda: V * v_dom,
+            'pwprod': lambda: odl.OperatorPointwiseProduct(V, P),
+            'neg': lambda: -V,
+            'div': lambda: V / s,
+            'comp-outer': lambda: V * odl.ScalingOperator(dom, s),
+            'comp-inner': lambda: odl.ScalingOperator(ran, s) * V,
+            'comp-inner-vecsum': lambda: (odl.IdentityOperator(ran) -
+                                          v_ran) * V,
+            'fcomp': f,
+            'fsum': lambda: f() + f(),
+            'fscalarsum': lambda: f() + s,
+            'flscal': lambda: abs(s) * f(),
+            'frscal': lambda: f() * s,
+            'flvm': lambda: v_dom * f(),
+        }[k]()
+        op._verif_view_operand = V
+        return op
+    return mk
